@@ -51,13 +51,13 @@ The misses and what was changed (every one is caught now; no check was loosened 
 
 * Round 4 (after the audit): 15 of 20 caught at once.  C04 (identifier values read through a second,
   differently ordered query and zipped with the genomes: needs annotation rows in another physical order
-  than the genome rows): ROUND4_C04.  C08 (one-shot zlib.decompress instead of GzipFile: multi-member
+  than the genome rows): the generated databases always inserted a genome row together with its annotation row in key order; the new stream `database-layouts` builds the file from an operation list (independent insertion orders, explicit rowids, holes, rows of other sets, several taxa, VACUUM; every order for 3-4 genomes enumerated).  C08 (one-shot zlib.decompress instead of GzipFile: multi-member
   gzip inputs lose everything after the first member; the same idea was caught at once by C06, whose
-  audit had added gzip flavours): ROUND4_C08.  C12 (buffered per-signature writer that drops the pending
-  buffer before a signature of >= 2^14 values, list-type containers only): ROUND4_C12.  C18 (a `PRAGMA
+  audit had added gzip flavours): every compressed input of the C08 harness was one gzip member under a `.gz` name; `cli-gzip-containers` / `api-gzip-containers` now feed 24 container flavours (multi-member, bgzf, empty members, header fields, no suffix) through every channel.  C12 (buffered per-signature writer that drops the pending
+  buffer before a signature of >= 2^14 values, list-type containers only): no round-trip case had a signature above 1500 values; kind `sizes` now combines size classes up to 2^17+1 in nine orders with fifteen container kinds.  C18 (a `PRAGMA
   journal_mode = OFF` "read-only tuning" hook: rewrites the header of a genome file that is in WAL
-  mode): ROUND4_C18.  C19 (an existing output file is opened r+ and rewritten in place: a killed
-  writer leaves old metadata over partly new data): ROUND4_C19.
+  mode): every database used was the shipped one (DELETE journal mode, 4096-byte pages) and the hook bypasses the statement recorder; `history-dbstate` now runs the read-side uses on 29 persistent file states (WAL with and without side files, page sizes, auto_vacuum, free pages, encodings) and compares hashes.  The same work turned up a genuine defect of the unchanged code: a genome file with *pending* WAL frames is checkpointed, i.e. modified, by a plain `gambit query` because the file is opened read-write (known finding C18-wal-pending-frames).  C19 (an existing output file is opened r+ and rewritten in place: a killed
+  writer leaves old metadata over partly new data): every crash stream wrote to a fresh path, where mode `w` and the seeded `r+` fallback coincide; kind `over_kill` and the field `pre` of `cli_kill` now start from an output path that already holds another, the same, a truncated or a foreign file and kill the writer at every storage call after it opened the path.
 
 **Behaviour-preserving rewrites (the opposite experiment).**  A check that alarms on correct code is as
 useless as one that misses a defect, so after round 3 twenty fresh sub-agents (same isolation: the
